@@ -23,7 +23,30 @@ GAUSS = {
     'B3f': [(9, 5.0, 4.0, 1.3), (60, 9.5, 9.0, 1.7), (50, 15.5, 9.0, 1.7)],     # faint FIRST marker (raster order): pruned at contrast 0.3
 }
 PIXEL_TYPES = ('P', 'T', 'Y', 'D')
-TYPES = tuple(GAUSS) + PIXEL_TYPES
+
+# "spike" parents: a smooth blend plus a small bright component (hot pixel / cosmic-ray hit / noise spike) INSIDE the
+# parent's segment.  At the threshold levels where the real peaks are separate components the spike is a component of
+# its own; it has fewer than npixels = 5 pixels, so the multi-threshold step discards it and the surviving marker
+# numbers (raster order of the components) have a hole exactly where the spike sat.  With npixels = 1 the spike is a
+# legitimate marker (a third, tiny child, or a marker pruned by the contrast criterion).
+#   base blend, spike pixels (rows, cols), spike value, place of the spike among the marker components in raster order
+SPIKE = {
+    'H2a': ('B2', (slice(4, 5), slice(12, 13)), 30.0, 'first'),     # hot pixel above the peaks: markers {2, 3}
+    'H2z': ('B2', (slice(12, 13), slice(12, 13)), 30.0, 'last'),    # hot pixel below the peaks: markers {1, 2} (hole at the end)
+    'H2m': ('B2d', (slice(6, 7), slice(15, 16)), 30.0, 'middle'),   # diagonal 2-blend, hot pixel between the peaks: markers {1, 3}
+    'H2q': ('B2', (slice(3, 5), slice(12, 14)), 30.0, 'first'),     # 2x2 spike (npixels - 1 pixels) above the peaks
+    'H2x': ('B2', (slice(4, 5), slice(12, 13)), 70.0, 'first'),     # hot pixel above the peaks that is the source maximum
+    'H3a': ('B3t', (slice(3, 4), slice(12, 13)), 30.0, 'first'),    # 3-blend: the hole is made at the first separating level and
+                                                                    # a later level (third peak separates) renumbers the markers
+}
+GAUSS_EXTRA = {
+    'B2d': [(50, 8.5, 6.0, 1.7), (42, 15.0, 10.5, 1.7)],                    # diagonal 2-blend (base of H2m only)
+}
+NOISE_TYPES = ('N2',)      # 2-blend + a seed-generic sparse positive noise image inside the segment (sub-npixels components
+#                            at generic places and levels)
+SPIKE_TYPES = tuple(SPIKE) + NOISE_TYPES
+# NOTE: new types are appended: TYPE_INDEX feeds the per-tile generator, existing scenes must keep their numbers
+TYPES = tuple(GAUSS) + PIXEL_TYPES + SPIKE_TYPES
 TYPE_INDEX = {t: i for i, t in enumerate(TYPES)}
 
 
@@ -31,7 +54,7 @@ def _gauss_tile(tp, rng):
     yy, xx = np.mgrid[0:TILE[0], 0:TILE[1]].astype(float)
     dx, dy = rng.uniform(-0.3, 0.3, size=2)       # generic sub-pixel offset (seed)
     img = np.zeros(TILE)
-    for (a, x0, y0, s) in GAUSS[tp]:
+    for (a, x0, y0, s) in (GAUSS[tp] if tp in GAUSS else GAUSS_EXTRA[tp]):
         a = a * rng.uniform(0.97, 1.03)           # generic amplitude (seed)
         img += a * np.exp(-((xx - x0 - dx) ** 2 + (yy - y0 - dy) ** 2) / (2 * s * s))
     return img, img > THRESH
@@ -59,8 +82,21 @@ def _pixel_tile(tp, rng):
     return img, img > THRESH
 
 
+def _spike_tile(tp, rng):
+    if tp in NOISE_TYPES:
+        img, seg = _gauss_tile('B2', rng)
+        hot = rng.random(TILE) < 0.12                 # generic noise image (seed): sparse, positive, heavy
+        amp = rng.uniform(4.0, 30.0, size=TILE)
+        return img + np.where(hot & seg, amp, 0.0), seg
+    base, where, value, _ = SPIKE[tp]
+    img, seg = _gauss_tile(base, rng)
+    img = img.copy()
+    img[where] = value * rng.uniform(0.97, 1.03)      # generic spike height (seed)
+    return img, img > THRESH
+
+
 def tile(tp, rng):
-    img, seg = (_gauss_tile if tp in GAUSS else _pixel_tile)(tp, rng)
+    img, seg = (_gauss_tile if tp in GAUSS else _spike_tile if tp in SPIKE_TYPES else _pixel_tile)(tp, rng)
     if seg[0].any() or seg[-1].any() or seg[:, 0].any() or seg[:, -1].any() or not seg.any():
         raise AssertionError(f'parent type {tp} touches its tile border')
     return img, seg
@@ -124,6 +160,38 @@ def connected(mask, conn):
                 seen.add(q)
                 stack.append(q)
     return len(seen) == len(pts)
+
+
+def components(mask, conn):
+    """Connected components of the True set, in raster order of their first
+    pixel (flood fill).  -> list of sorted lists of (y, x)."""
+    pts = {(int(y), int(x)) for y, x in zip(*np.nonzero(mask))}
+    nb = [(-1, 0), (1, 0), (0, -1), (0, 1)]
+    if conn == 8:
+        nb += [(-1, -1), (-1, 1), (1, -1), (1, 1)]
+    out = []
+    for start in sorted(pts):
+        if start not in pts:
+            continue
+        pts.discard(start)
+        comp = [start]
+        stack = [start]
+        while stack:
+            y, x = stack.pop()
+            for dy, dx in nb:
+                q = (y + dy, x + dx)
+                if q in pts:
+                    pts.discard(q)
+                    comp.append(q)
+                    stack.append(q)
+        out.append(sorted(comp))
+    return out
+
+
+def marker_pattern(img, seg, level, npixels, conn):
+    """Sizes pattern of the components of (img > level) & seg in raster order:
+    a string of 'M' (>= npixels: survives as a marker) and 's' (discarded)."""
+    return ''.join('M' if len(c) >= npixels else 's' for c in components((img > level) & seg, conn))
 
 
 # ---------------------------------------------------------------------------
